@@ -19,7 +19,7 @@
 From Coq Require Import ZArith Lia.
 From RsdnsModel Require Import Base GenConst GenCursor GenHeader GenSpec Cursor Names Labels Header Tracker RData Reader Writer.
 From RsdnsModel.Spec Require Import WireName LinearPass RDataWire.
-From RsdnsModel.Proofs Require Import CursorSafe ListN Bits WriterLayout RecordRT RDataRT ParseSpec RecordFull ReaderRefine MessageRT RDataCompressed.
+From RsdnsModel.Proofs Require Import CursorSafe ListN Bits WriterLayout RecordRT RDataRT ParseSpec RecordFull TrackerRefine ReaderRefine MessageRT RDataCompressed EndToEnd.
 Open Scope N_scope.
 
 Definition be16 (msg : list byte) (off : N) : N := be_val (subN msg off 2) 0.
@@ -164,6 +164,29 @@ Example C02_whole_message_example :
   let x := mkSR [(12, [x61])] 1 1 60 (SVal (A_A 16909060)) in
   questions_stand example_msg 12 [q] 19 /\ records_stand example_msg 19 [x] 35 /\ lenN example_msg = 35.
 Proof. exact example_stands. Qed.
+
+(* ---- the cursor-style reader, record by record, on the semantic description ----
+   For a message of questions and records standing back to back behind a header that announces them:
+   it is parsed completely into the items of exactly these records, and in the represented state of
+   the reader at record k (C09: reached by every allowed call sequence) the call
+   record_header::<InlineName>() returns the text of the record's owner labels and a marker carrying
+   its offset, TYPE, CLASS, TTL, RDLENGTH and section (by counting), the typed record_data::<D>() then
+   returns exactly the record's value, and the reader represents the state at record k+1. *)
+Theorem C02_reader_record_end_to_end : forall msg qs rs nq an ns ar e1 e2,
+  lenN msg <= 65535 -> 12 <= lenN msg -> questions_stand msg 12 qs e1 -> records_stand msg e1 rs e2 ->
+  lenN qs = nq -> lenN rs = an + ns + ar -> nq <= 65535 -> an <= 65535 -> ns <= 65535 -> ar <= 65535 ->
+  exists qends rends,
+    parsed msg nq an ns ar (qitems 12 qs qends) (ritems e1 rs rends) e1 e2 /\ rstands msg e1 rs rends /\
+    forall k p x e a r hw,
+      getN (ritems e1 rs rends) k = Some (ritem p x e) -> record_stands msg p x e -> sr_data x = SVal a ->
+      RState msg nq an ns ar (qitems 12 qs qends) (ritems e1 rs rends) e2 r (nq + k) hw ->
+      exists r1 mk r2,
+        rd_header_n msg Inline r = (r1, Ok (OHeaderN (text_of_labels (sr_labels x)) mk)) /\
+        m_off mk = p /\ m_rtype mk = sr_type x /\ m_rclass mk = sr_class x /\ m_ttl mk = sr_ttl x /\
+        m_rdlen mk = lenN (rdata_enc a) /\ m_section mk = section_of (lin nq an ns ar) k /\
+        rd_data msg (sr_type x) mk r1 = (r2, Ok (ORData (rdata_val a))) /\
+        RState msg nq an ns ar (qitems 12 qs qends) (ritems e1 rs rends) e2 r2 (nq + k + 1) (N.max hw (nq + k + 1)).
+Proof. exact reader_record_end_to_end. Qed.
 
 (* ---- names compressed inside record data ----
    [name_in msg L p ls r] (Proofs/RDataCompressed.v): within the first L octets of the message (the
